@@ -2,11 +2,13 @@
   Counting lemma of /verif (checked with `lean lean/Count.lean`, core Lean 4 only, no Mathlib).
 
   A counter `c` over the lines of a file is DEFINED by primitive recursion  c (k+1) = c k + (if p k then 1 else 0)  (the ghost
-  counters rows_before / comments_before of contracts/C02.py: p k = "line k is a row" / "line k is a kept comment").
+  counters rows_before / hash_lines_before of contracts/C02.py: p k = "line k is a row" / "line k is a comment line").
   `count_skips`: over a block of lines none of which satisfies p the counter does not move;
   `count_counts`: over a block of lines all of which satisfy p it counts them one by one.
   Instance (contracts/C01.py, round-trip lemma): the text to_swc writes is  m comment lines, the column header, n node lines;
-  so rows_before is 0 up to line m+1 and then j after j node lines, comments_before is j after j comment lines and stays m.
+  so rows_before is 0 up to line m+1 and then j after j node lines, hash_lines_before is j after j comment lines (the m comments and
+  the column header) and stays m+1.  (comments_before, the counter of the KEPT comment lines, is defined from hash_lines_before without
+  recursion; that it obeys the same recursion with p k = "line k is a kept comment" is the z3 lemma C02/lemma/comments/comments_before-counts-...)
 -/
 
 theorem count_skips (c : Nat → Nat) (p : Nat → Bool)
